@@ -2,6 +2,7 @@ package migrations
 
 import (
 	"errors"
+	"slices"
 
 	"github.com/nyaruka/gocommon/i18n"
 	"github.com/nyaruka/gocommon/jsonx"
@@ -88,6 +89,7 @@ func (l Localization) Languages() []i18n.Language {
 	for k := range l {
 		langs = append(langs, i18n.Language(k))
 	}
+	slices.Sort(langs)
 	return langs
 }
 
